@@ -175,7 +175,9 @@ def run(ctx):
     keep = ('fee_formula', 'd_complete', 'f_no_wrap', 'a_direction')
     tasks = [('fees', fees_task)] + [(f"step:{'in' if ei else 'out'}:{'a2b' if ab else 'b2a'}", c02.step_task(ei, ab, keep))
                                      for ei in (True, False) for ab in (True, False)]
-    from props import c17
+    from props import c17, c03
+    # the fee split inside the swap loop (W* obligations: every step's fee is split on that step's liquidity; totals handed over)
+    tasks += [c03.config_task(ei, ab, 'explicit', 0) for ei in (True, False) for ab in (True, False)]
     tasks += [('update_after_swap', update_after_swap_task), ('collect_protocol_fees', collect_protocol_fees_task(False)),
               ('collect_protocol_fees_v2', collect_protocol_fees_task(True)), ('handler:single', c17.single_task(False))]
     ctx.parallel(tasks, max_procs=8)
